@@ -42,6 +42,53 @@ func registerSync(ip *Interp) {
 		ip.call(fr, a[1], nil)
 		return nil
 	})
+	// sync.Pool, sequential: Get hands back the most recently Put item if there is
+	// one (always reusing is one of the behaviours the real pool may show, and the
+	// one that exposes state left in pooled objects), otherwise New().
+	type poolState struct{ items []Value }
+	pool := func(ip *Interp, recv Value) *poolState {
+		p := recv.(*Value)
+		if st, ok := ip.shadow[p].(*poolState); ok {
+			return st
+		}
+		st := &poolState{}
+		ip.shadow[p] = st
+		if !ip.inInit {
+			ip.journal = append(ip.journal, func() { delete(ip.shadow, p) })
+		}
+		return st
+	}
+	ip.reg("(*sync.Pool).Put", func(ip *Interp, fr *frame, a []Value) Value {
+		if a[1].(Iface).T == nil {
+			return nil
+		}
+		st := pool(ip, a[0])
+		old := st.items
+		ip.journal = append(ip.journal, func() { st.items = old })
+		st.items = append(append([]Value(nil), st.items...), a[1])
+		return nil
+	})
+	ip.reg("(*sync.Pool).Get", func(ip *Interp, fr *frame, a []Value) Value {
+		st := pool(ip, a[0])
+		if n := len(st.items); n > 0 {
+			old := st.items
+			ip.journal = append(ip.journal, func() { st.items = old })
+			v := st.items[n-1]
+			st.items = append([]Value(nil), st.items[:n-1]...)
+			return v
+		}
+		ps := ip.namedType("sync", "Pool").Underlying().(*types.Struct)
+		for i := 0; i < ps.NumFields(); i++ {
+			if ps.Field(i).Name() == "New" {
+				f := (*a[0].(*Value)).(Struct)[i]
+				if isNilFunc(f) {
+					return Iface{}
+				}
+				return ip.call(fr, f, nil)
+			}
+		}
+		return Iface{}
+	})
 	// sync.Map with plain-map semantics and nondeterministic Range order
 	ip.reg("(*sync.Map).Store", func(ip *Interp, fr *frame, a []Value) Value {
 		ip.mapSet(ip.shadowMap(a[0]), a[1], a[2])
